@@ -1,6 +1,7 @@
 package props
 
 import (
+	"encoding/json"
 	"fmt"
 	"sort"
 	"strings"
@@ -402,6 +403,26 @@ func c13(r *hx.Run) {
 			}
 			c13RoundTrip(r, "sha512", p512, d512, s)
 		})
+	}
+	// the protocol allows SHA2-256 (first) and SHA2-512; a client built its create with the SECOND algorithm (delta hash, commitments).
+	// The DID suffix of a create is computed by the node from the suffix data with the protocol's first algorithm - by the writer
+	// and by the reader alike: the create reads back under the suffix the handler referenced
+	{
+		p2 := p
+		p2.MultihashAlgorithms = []uint{fx.SHA256, fx.SHA512}
+		var d2 []*fx.DIDOps
+		for _, seed := range []string{"m", "n"} {
+			d := fx.NewDIDOps(fx.Ed25519, fx.SHA512, seed)
+			var t map[string]interface{}
+			if err := json.Unmarshal(d.Req["C"], &t); err != nil {
+				panic(err)
+			}
+			d.Suffix = fx.ModelHash(fx.SHA256, t["suffixData"])
+			d2 = append(d2, d)
+		}
+		for _, s := range [][]qsym{{{0, "C"}}, {{1, "C"}}, {{0, "C"}, {1, "C"}}, {{1, "C"}, {0, "C"}}} {
+			c13RoundTrip(r, "second-algorithm-create", p2, d2, s)
+		}
 	}
 	r.Sample("plain|C1,U2,R3,D1")
 	r.Sample("expiry|Ux1,U1,D2")
